@@ -1,19 +1,26 @@
 #!/bin/bash
-# usage: run_seeds.sh [seed-id ...]   applies each seeded change to /repo, runs the check(s) of its property, undoes it.
-cd /verif
+# usage: run_seeds.sh [seed-id ...]
+# Applies each seeded change to a scratch clone of /repo (never /repo itself), runs the check(s) of its
+# property against that clone (VERIF_REPO), and reports. Run it from a snapshot (vp run) so that edits
+# in /verif do not disturb it.
+here=$(cd "$(dirname "$0")/.." && pwd); cd $here
 ids="$@"; [ -z "$ids" ] && ids=$(ls seeded)
+clone=$(mktemp -d /tmp/seedrepo.XXXXXX)
+git clone -q /repo $clone/repo
+sum=$here/seeded_results.txt; : > $sum
 for id in $ids; do
   d=seeded/$id; prop=$(python3 -c "import json;print(json.load(open('$d/meta.json'))['property'])")
   extra=$(python3 -c "import json;print(' '.join(json.load(open('$d/meta.json')).get('also_check',[])))")
-  if ! git -C /repo apply --check $PWD/$d/patch.diff 2>/dev/null; then echo "$id: PATCH DOES NOT APPLY"; continue; fi
-  git -C /repo apply $PWD/$d/patch.diff
+  git -C $clone/repo checkout -q -- . ; git -C $clone/repo clean -fdq
+  if ! git -C $clone/repo apply $here/$d/patch.diff 2>/dev/null; then echo "$id: PATCH DOES NOT APPLY" | tee -a $sum; continue; fi
   out=""
   for p in $prop $extra; do
-    ./check $p --tier quick > /tmp/seedrun_${id}_$p.log 2>&1; rc=$?
-    out="$out $p:rc=$rc"
+    VERIF_REPO=$clone/repo ./check $p --tier quick > $clone/${id}_$p.log 2>&1; rc=$?
+    v=$(grep -c '^VIOLATION' $clone/${id}_$p.log)
+    out="$out $p:rc=$rc,violations=$v"
+    grep -A1 '^VIOLATION' $clone/${id}_$p.log | grep harness | head -3 | sed "s/^/    $id $p /" >> $sum
+    [ $rc -eq 3 ] && grep INCONCLUSIVE $clone/${id}_$p.log | head -3 | sed "s/^/    $id $p /" >> $sum
   done
-  git -C /repo checkout -- .
-  echo "$id:$out" | tee -a /tmp/seedrun_summary.txt
+  echo "$id:$out" | tee -a $sum
 done
-# evidence files were rewritten by runs on a mutated tree: restore the committed ones
-git -C /verif checkout -- evidence 2>/dev/null
+rm -rf $clone
